@@ -124,6 +124,7 @@ Section Shift.
     destruct x as [o1|o1]; [|reflexivity].
     destruct (a_close_obj p); [|reflexivity].
     destruct (r_state o1); try reflexivity.
+    destruct (r_writer o1); [|reflexivity].
     rewrite sh_error. destruct (error o1 true c1) as [o2 c2]. reflexivity.
   Qed.
 
